@@ -4,6 +4,17 @@ import json, os, sys
 HERE = os.path.dirname(os.path.abspath(__file__))
 sys.path.insert(0, HERE)
 import manifest_data as M
+import glob
+# per-property fragments tools/manifest.d/Cnn.json : {"category","text","note","technique","pyx2v":bool}
+for fn in sorted(glob.glob(os.path.join(HERE, "manifest.d", "C*.json"))):
+    M.CLAIMED[os.path.basename(fn)[:-5]] = json.load(open(fn))
+# known findings: findings.d/*.jsonl -> known_findings.jsonl
+lines = []
+for fn in sorted(glob.glob(os.path.join(HERE, "..", "findings.d", "*.jsonl"))):
+    for l in open(fn):
+        if l.strip():
+            lines.append(l.strip())
+open(os.path.join(HERE, "..", "known_findings.jsonl"), "w").write("\n".join(lines) + ("\n" if lines else ""))
 props = [json.loads(l)["id"] for l in open(os.path.join(HERE, "..", "properties.jsonl"))]
 checks = []
 for pid in props:
